@@ -186,7 +186,39 @@ func c14LongPrefix(n, t, unit, tailIdx int) core.Result {
 	return core.Okay(t > 0, itoa(len(out)))
 }
 
+// c14AfterBroken: a malformed source is parsed (it fails, possibly with brackets, hashes, strings or tags still open),
+// then every spelling class of a simple print and of the canonical corpus item: what failed before does not decide
+// whether the next template parses.
+var c14OpenEnded = []string{"{% set h = {a: 1 %}", "{{ {'a': @} }}", "{{ [1, 2 }}", "{{ (a }}", "{{ \"x#{ {'k': 1 }", "{% if a %}{{ {'k': {'j': 1 }}", "{{ f(1, {a: [ }}", "{# open", "{% verbatim %}{{", "{{ 'x"}
+
+func c14AfterBroken(bi, ii int) core.Result {
+	var broken string
+	if bi < len(c14OpenEnded) {
+		broken = c14OpenEnded[bi]
+	} else {
+		broken = c17Broken[bi-len(c14OpenEnded)]
+	}
+	for r := 0; r < 3; r++ {
+		tryParse(broken)
+		tryEnvParse(stdEnv(map[string]string{"main": broken}), "main")
+	}
+	items := c14Items()
+	it := items[ii]
+	if strings.HasPrefix(it.name, "twig:") {
+		return core.Skipped("form-not-supported-today")
+	}
+	for _, src := range []string{"{{ a }}", "{{a}}", "{{\ta\r\n}}", "{{ a -}}", "{{- a -}}", "{{ {'k': a}.k }}", it.src} {
+		if _, err, pan := tryParse(src); err != nil || pan != "" {
+			return core.Violation("parse-verdict", fmt.Sprintf("after %q failed to parse in this process, %q does not parse: %v %s", broken, src, err, pan))
+		}
+	}
+	return core.Okay(true, "after-broken")
+}
+
 func c14Run(c core.Case) core.Result {
+	if c.Fam == "afterbroken" {
+		return c14AfterBroken(c.N[0], c.N[1])
+	}
 	if c.Fam == "longprefix" {
 		return c14LongPrefix(c.N[0], c.N[1], c.N[2], c.N[3])
 	}
@@ -346,6 +378,14 @@ func c14Levels(tier string) []core.Level {
 		{Name: "canonical spellings parse and render (0 deviations)", Gen: func(emit func(core.Case)) { c14Gen(0, false, false, emit) }},
 		{Name: "every spelling with 1 deviation (whitespace choice from 7 (tab, newline, CR LF, two blanks, mixed, bare CR; none where the neighbours cannot merge), quote style, trailing comma, '-' marker)", Gen: func(emit func(core.Case)) { c14Gen(1, false, false, emit) }},
 		{Name: "every spelling with <= 2 deviations", Gen: func(emit func(core.Case)) { c14Gen(2, false, false, emit) }},
+		{Name: "histories: after each of 10 open-ended and 69 otherwise malformed sources failed to parse in the process, the spellings of a simple print and every canonical corpus item still parse", Gen: func(emit func(core.Case)) {
+			n := len(c14Items())
+			for bi := 0; bi < len(c14OpenEnded)+len(c17Broken); bi++ {
+				for ii := bi % 7; ii < n; ii += 7 {
+					emit(core.Case{Fam: "afterbroken", N: []int{bi, ii}})
+				}
+			}
+		}},
 		{Name: "token counts: 0..60 simple constructs (print, if, filtered print, set), the first 0..4 of them written without the optional blanks, in front of a tag nested in a for / block / else / filter / macro / set body (6 tails): spacing decides neither the parse verdict nor the output", Gen: func(emit func(core.Case)) {
 			for unit := 0; unit < 4; unit++ {
 				for tl := 0; tl < 6; tl++ {
